@@ -56,7 +56,10 @@ MCNext ==
   \/ /\ Derived /\ last = Ok /\ Cardinality({j \in 1..Len(hist) : hist[j].k = "add"}) < MaxFollow
      /\ \E r \in FollowPool, mg \in (IF Tier = "quick" THEN {TRUE} ELSE BOOLEAN) : AAdd(Len(convs), r, TRUE, mg, "record")
 MCSpec == Init /\ [][MCNext]_vars
-MCView == <<convs, last, IF Len(hist) = 0 THEN <<>> ELSE hist[Len(hist)]>>
+\* everything the enabling conditions read from the history is part of the view
+MCView == <<convs, last, IF Len(hist) = 0 THEN <<>> ELSE hist[Len(hist)],
+            Cardinality({j \in 1..Len(hist) : hist[j].k = "new"}), Cardinality({j \in 1..Len(hist) : hist[j].k = "add"}),
+            \E j \in 1..Len(hist) : hist[j].k \notin {"new", "add"}>>
 
 LastOp == hist[Len(hist)]
 Res == [out |-> last, conv |-> IF last = Ok THEN convs[Len(convs)] ELSE EmptyConv(D)]
